@@ -67,6 +67,38 @@ def grammar_jobs(rng, cases, run0, backends, per_job=120, prefix="g", allow=None
     return jobs
 
 
+# request headers the protocol gives no meaning to: a request keeps its class (served / refused) and its response keeps
+# every obligation (C14 outcome, C15 refusal, C20 no-store) whatever these say
+EXTRA_HEADERS = [
+    [["Accept-Encoding", "identity;q=0"]], [["Accept-Encoding", "*;q=0"]], [["Accept-Encoding", "gzip"]], [["Accept-Encoding", "br, gzip;q=0.5, deflate"]],
+    [["Accept-Encoding", "compress, identity;q=0"]], [["Accept-Encoding", "zstd"]], [["Accept", "text/html"]], [["Accept", "application/json;q=0"]],
+    [["Accept", "application/vnd.taskchampion.snapshot;q=0"]], [["If-None-Match", "*"]], [["If-None-Match", "\"abc\""]],
+    [["If-Match", "\"abc\""]], [["If-Modified-Since", "Wed, 21 Oct 2099 07:28:00 GMT"]], [["If-Unmodified-Since", "Thu, 01 Jan 1970 00:00:00 GMT"]],
+    [["Range", "bytes=0-0"]], [["If-Range", "\"abc\""], ["Range", "bytes=1-"]], [["Cache-Control", "max-age=3600"]], [["Cache-Control", "only-if-cached"]],
+    [["Pragma", "no-cache"]], [["X-HTTP-Method-Override", "DELETE"]], [["X-Forwarded-For", "10.0.0.1"]], [["Forwarded", "for=10.0.0.1;proto=https"]],
+    [["Origin", "http://other.example"]], [["Origin", "http://other.example"], ["Access-Control-Request-Method", "POST"]],
+    [["Accept-Language", "xx"]], [["Accept-Charset", "utf-16;q=1, *;q=0"]], [["TE", "trailers"]], [["User-Agent", ""]], [["Cookie", "session=1"]],
+    [["Authorization", "Basic Og=="]], [["Upgrade-Insecure-Requests", "1"]], [["Prefer", "return=minimal"]], [["Want-Digest", "sha-256"]],
+    [["X-Version-Id", "00000000-0000-0000-0000-000000000000"]], [["X-Parent-Version-Id", "00000000-0000-0000-0000-000000000001"]],
+    [["X-Snapshot-Request", "urgency=high"]],
+]
+
+
+def header_jobs(rng, cases, run0, backends=("inmemory", "sqlite"), prefix="xh", per_job=150, driver="http"):
+    """every extra header (combination) on every route: the four protocol requests as served and as refused, the index, unknown routes"""
+    base = [c for c in cases if c["chunks"] == 1 and not c.get("abort") and c["pid"] == "valid" and c["ct"] in ("right", "wrong")
+            and c["cid"] in ("valid", "absent") and c["size"] in (0, 20)
+            and ((c["route"] in ("av", "as") and c["method"] == "POST") or (c["route"] not in ("av", "as") and c["method"] == "GET"))]
+    seen, sel = set(), []
+    for c in base:
+        k = (c["route"], c["cls"], c["cid"])
+        if k not in seen:
+            seen.add(k)
+            sel.append(c)
+    xcases = [dict(c, xh=xh) for xh in EXTRA_HEADERS for c in sel]
+    return grammar_jobs(rng, xcases, run0, backends, per_job=per_job, prefix=prefix), len(xcases)
+
+
 def big_jobs(rng, cases, run0, backend="inmemory", prefix="big"):
     """one job per big-body case: the payload is held several times in memory"""
     jobs = []
